@@ -202,7 +202,8 @@ pub fn oracle(s: &ProgScene<X>, t: &Trace) -> Vec<Violation> {
             handled = 0;
             cur_inst = Some(e.inst);
         }
-        if let Cb::Msg(id) = e.cb {
+        // (stream items are folded into the state like messages)
+        if let Cb::Msg(id) | Cb::Item(id) = e.cb {
             digest = fold(digest, id);
             handled += 1;
             digest_at.push((id, digest));
@@ -507,6 +508,16 @@ fn cases(tier: Tier) -> Vec<Case> {
         // the attached stream is never ready, so the loop's select! tie-break cannot change anything:
         // it is not explored as a choice here (C13 explores it, with streams that do yield)
         c.exec.select_choice = false;
+        c
+    }));
+    // ... and with three items ready on that stream from the start (every eleventh case; thorough:
+    // every third): mailbox and stream are ready together, the tie-break is explored, and neither
+    // side may lose anything to it
+    let step = if tier == Tier::Thorough { 3 } else { 11 };
+    let si = crate::progscene::with_stream_variant_items(vec![71, 72, 73], || plain_cases(tier));
+    v.extend(si.into_iter().enumerate().filter(|(i, c)| i % step == 5 % step && !c.desc.contains("Restart") && !c.desc.contains("slow=Some")).map(|(_, mut c)| {
+        c.desc = c.desc.replacen("fifo", "fifo [3 stream items ready]", 1);
+        c.bound = c.bound.or(Some(if tier == Tier::Thorough { 5 } else { 3 }));
         c
     }));
     // ... and (every fourth case; thorough: every second) once more under a configuration that must
